@@ -416,81 +416,140 @@ def flow_rules(prog, R):
             bad = [r for r in fail_exits if r in b.cfg.reach_from(sx, removed=okret | discard)]
             R.add('SEEK-3', b, 'failed-seek-discards-buffer#%d' % n, not bad and bool(fail_exits), site(b, stt.line),
                   'seek can fail after trying to reposition the source and return with the old buffer content still in place: %s' % bool(bad))
-    R.floor('SEEK-3', 2)
+            # ... and the reader is terminal: where the source stands after a failed seek is unspecified, a later
+            # read would parse from an arbitrary offset (found by the mutation survey: the tests never read after a failed seek)
+            finished = set()
+            for x in b.cfg.reachable:
+                for st in b.blocks[x].stmts:
+                    if st.k == 'assign' and st.place.local == 1 and [q['name'] for q in st.place.proj if q['k'] == 'field'] == ['state']:
+                        rs = roots_of(b, st.rv.ops[0], du) if st.rv.k == 'use' else []
+                        if any(r[0] == 'agg' and r[1].rv.j.get('variant') == 'Finished' for r in rs):
+                            finished.add(x)
+            bad2 = [r for r in fail_exits if r in b.cfg.reach_from(sx, removed=okret | finished)]
+            R.add('SEEK-3', b, 'failed-seek-makes-reader-terminal#%d' % n, not bad2 and bool(fail_exits), site(b, stt.line),
+                  'seek can fail after trying to reposition the source and leave the reader in a state in which later reads continue from wherever the source stands: %s' % bool(bad2))
+    R.floor('SEEK-3', 4)
     run_seek4(prog, R)
 
 
-# ---------------- SEEK-4 (added after seeded change C05-r3b)
-def _affine(prog, b, op, du, depth=0):
-    """value of an operand as (kind, const): kind 'L' = length of the reader buffer, 'x' = anything else;
-    constants added/subtracted are folded so that `pos + 1 <= len` and `pos <= len - 1` read like `pos < len`"""
-    rs = roots_of(b, op, du)
-    if len(rs) != 1 or depth > 6:
-        return ('x', 0)
-    r = rs[0]
-    if r[0] == 'call' and r[1].callee and r[1].callee.name == 'len' and r[1].args:
-        inner = roots_of(b, r[1].args[0], du, through_calls=identity_through)
-        if inner and all(q[0] == 'call' and is_buffer_call(prog, q[1].callee) for q in inner):
-            return ('L', 0)
-        return ('x', 0)
-    if r[0] == 'bin' and r[1].rv.j['op'] in ('Add', 'AddUnchecked', 'Sub', 'SubUnchecked'):
-        sgn = 1 if r[1].rv.j['op'].startswith('Add') else -1
-        a, c = r[1].rv.ops
-        cv = resolve_const_operand(b, c, du)
-        if cv and cv[0] == 'int':
-            k, n = _affine(prog, b, a, du, depth + 1)
-            return (k, n + sgn * cv[1])
-        av = resolve_const_operand(b, a, du)
-        if av and av[0] == 'int' and sgn == 1:
-            k, n = _affine(prog, b, c, du, depth + 1)
-            return (k, n + av[1])
-    return ('x', 0)
+# ---------------- SEEK-4 / SEEK-5 (added after seeded change C05-r3b and the mutation survey)
+def _rebase(sym, old, new):
+    if sym == old:
+        return new
+    if isinstance(sym, tuple):
+        return tuple(_rebase(x, old, new) for x in sym)
+    return sym
+
+
+def _record_start_location(prog, fmt):
+    """symbolic location (relative to the BufferPosition) that `BufferPosition::reset(start)` assigns `start` to"""
+    from scev import Sym, Aff, Path
+    try:
+        rb = prog.get('%s::BufferPosition::reset' % fmt)
+    except KeyError:
+        return None
+    init = Path()
+    init.env[1] = Aff.sym(('bp',))
+    init.env[2] = Aff.sym(('start',))
+    locs = set()
+    for p in Sym(prog, rb).run(0, init=init):
+        for (_, loc, val) in p.writes:
+            if val == Aff.sym(('start',)):
+                locs.add(loc)
+    return locs.pop() if len(locs) == 1 else None
 
 
 def run_seek4(prog, R):
-    R.rule('SEEK-4', 'the branch of seek that returns without touching the source is entered only when the target offset is strictly below the length of the buffer (the byte at the target is in the buffer): a guard that also admits offset == length takes the shortcut into an empty, never-filled buffer and the reader then reports the end of the input')
+    from scev import Sym, Aff, Path
+    R.rule('SEEK-4', 'the path of seek that returns without touching the source is only taken under conditions that imply 0 <= offset < length of the buffer for the offset it makes the new record start (the byte at the target is in the buffer): a guard that also admits offset == length takes the shortcut into an empty, never-filled buffer and the reader then reports the end of the input')
+    R.rule('SEEK-5', 'seek arithmetic, solved symbolically: the new record start of the in-buffer shortcut is  old record start + target byte - current byte  (file offsets at the time seek is entered), the search restarts at it (or one byte behind it), and after repositioning the source the record start is 0')
     for fmt in ('fasta', 'fastq'):
         try:
             b = prog.get('%s::Reader::seek' % fmt)
         except KeyError:
             R.anchor_missing('SEEK-4', '%s::Reader::seek' % fmt)
             continue
-        du = DefUse(b)
-        srcseek = set(x for x, t in b.calls() if t.callee and t.callee.is_('std::io::Seek::seek'))
-        okret = [x for x in b.cfg.reachable if any(s.k == 'assign' and s.place.local == 0 and s.rv.k == 'agg' and s.rv.j.get('variant') == 'Ok' for s in b.blocks[x].stmts)]
-        near = [r for r in okret if r in b.cfg.reach_from(0, removed=srcseek, include_start=True)]
-        if not near:
-            # no shortcut at all: nothing to guard
-            R.add('SEEK-4', b, 'no-in-buffer-shortcut', True, site(b, b.span['lo']), 'every successful return repositions the source')
+        where = site(b, b.span['lo'])
+        rloc = _record_start_location(prog, fmt)
+        if rloc is None:
+            R.anchor_missing('SEEK-5', '%s::BufferPosition::reset assigns its argument to one field' % fmt)
             continue
-        for r in near:
-            guards = []
-            for x in b.cfg.reachable:
-                t = b.blocks[x].term
-                if t.k != 'switch':
+        SELF, TO = ('self',), ('to',)
+        bp = ('f', SELF, None, 'buf_pos')
+        start_loc = _rebase(rloc, ('bp',), bp)
+        S = Aff.sym(start_loc)
+        T = Aff.sym(('f', TO, None, 'byte'))
+        P = Aff.sym(('f', ('f', SELF, None, 'position'), None, 'byte'))
+        X = S + T - P
+        L = ('len', ('buffer', 0))
+        init = Path()
+        init.env[1] = Aff.sym(SELF)
+        init.env[2] = Aff.sym(TO)
+        paths = Sym(prog, b).run(0, init=init)
+        oks = [p for p in paths if p.end[0] == 'return' and getattr(p.env.get(0), 'variant', None) == 'Ok']
+        def touches_source(p):
+            return any(t.callee and t.callee.is_('std::io::Seek::seek') for (_, t, _) in p.effects)
+        near = [p for p in oks if not touches_source(p)]
+        far = [p for p in oks if touches_source(p)]
+        if not near:
+            R.add('SEEK-4', b, 'no-in-buffer-shortcut', True, where, 'every successful return repositions the source')
+        n = 0
+        for p in near:
+            n += 1
+            resets = [a for (_, t, a) in p.effects if t.callee and (prog.local_callee_body(t.callee) is not None) and prog.local_callee_body(t.callee).key.endswith('BufferPosition::reset')]
+            newstart = resets[-1][1] if resets and len(resets[-1]) == 2 else p.store.get(start_loc)
+            ok5 = isinstance(newstart, Aff) and newstart == X
+            R.add('SEEK-5', b, 'shortcut-offset=start+target-current', ok5, where,
+                  'new record start on the in-buffer path = %r (required: %r)' % (newstart, X))
+            if fmt == 'fasta':
+                sp = p.store.get(('f', SELF, None, 'search_pos'))
+                oksp = isinstance(sp, Aff) and isinstance(newstart, Aff) and (sp - newstart).is_const() and (sp - newstart).c in (0, 1)
+                R.add('SEEK-5', b, 'shortcut-search-restarts-at-record-start', oksp, where, 'search position on the in-buffer path = %r, record start = %r' % (sp, newstart))
+            # SEEK-4: conditions of the path imply 0 <= X < L
+            if not isinstance(newstart, Aff):
+                R.add('SEEK-4', b, 'shortcut-requires-offset-below-buffer-length', False, where, 'the new record start is not an affine value')
+                continue
+            preds = []
+            for (_, d, taken) in p.conds:
+                s1 = d.single() if isinstance(d, Aff) else None
+                if not (isinstance(s1, tuple) and s1[0] == 'cmp'):
                     continue
-                rs = roots_of(b, t.discr, du)
-                if len(rs) != 1 or rs[0][0] != 'bin' or rs[0][1].rv.j['op'] not in ('Lt', 'Le', 'Gt', 'Ge'):
+                op, a, c = s1[1], s1[2], s1[3]
+                diff = a - c
+                # diff = alpha * newstart' + beta * L + k   where newstart' = newstart without its constant
+                base = newstart - Aff.const(newstart.c)
+                alpha = None
+                for k0, v0 in base.t.items():
+                    if diff.t.get(k0, 0) % v0 == 0:
+                        alpha = diff.t.get(k0, 0) // v0
+                    break
+                if alpha is None:
                     continue
-                st = rs[0][1]
-                lhs = _affine(prog, b, st.rv.ops[0], du)
-                rhs = _affine(prog, b, st.rv.ops[1], du)
-                if (lhs[0] == 'L') == (rhs[0] == 'L'):
+                rest = diff - base.scale(alpha)
+                beta = rest.t.get(L, 0)
+                rest = rest - Aff.sym(L).scale(beta)
+                if rest.t or (alpha == 0 and beta == 0):
                     continue
-                # which arm leads to the shortcut without the source seek?
-                arms = {}
-                for val, tgt in list(t.targets) + [(None, t.otherwise)]:
-                    arms.setdefault(r in b.cfg.reach_from(tgt, removed=srcseek, include_start=True), []).append(val)
-                if True not in arms or False not in arms:
-                    continue
-                taken_when_true = any(v is None or v != 0 for v in arms[True])
-                # value of the comparison at offset == length
-                op = st.rv.j['op']
-                ca, cb = lhs[1], rhs[1]
-                at_eq = {'Lt': ca < cb, 'Le': ca <= cb, 'Gt': ca > cb, 'Ge': ca >= cb}[op]
-                admits_eq = at_eq if taken_when_true else not at_eq
-                guards.append((x, st, admits_eq))
-            ok = bool(guards) and not any(g[2] for g in guards)
-            R.add('SEEK-4', b, 'shortcut-requires-offset-below-buffer-length', ok, site(b, (guards[0][1].line if guards else b.span['lo'])),
-                  'comparisons of the target offset with the buffer length guarding the shortcut: %d; one of them admits offset == length: %s' % (len(guards), any(g[2] for g in guards)))
-    R.floor('SEEK-4', 2)
+                preds.append((op, alpha, beta, rest.c, taken))
+
+            def holds(u, ln):
+                for (op, alpha, beta, k, taken) in preds:
+                    v = alpha * (u - newstart.c) + beta * ln + k
+                    t = {'Lt': v < 0, 'Le': v <= 0, 'Gt': v > 0, 'Ge': v >= 0, 'Eq': v == 0, 'Ne': v != 0}[op]
+                    want_true = taken is None or taken != 0
+                    if t != want_true:
+                        return False
+                return True
+            bad_hi = [(u, ln) for ln in (0, 1, 5, 1 << 20) for u in (ln, ln + 1, ln + (1 << 30)) if holds(u, ln)]
+            bad_lo = [(u, ln) for ln in (1, 5, 1 << 20) for u in (-1, -2, -(1 << 30)) if holds(u, ln)]
+            R.add('SEEK-4', b, 'shortcut-requires-offset-below-buffer-length', bool(preds) and not bad_hi, where,
+                  '%d comparisons of the new record start with the buffer length / constants guard the shortcut; admitted although offset >= length: %s' % (len(preds), bad_hi[:2]))
+            R.add('SEEK-4', b, 'shortcut-requires-nonnegative-offset', bool(preds) and not bad_lo, where,
+                  'admitted although offset < 0: %s' % (bad_lo[:2],))
+        for p in far[:1]:
+            resets = [a for (_, t, a) in p.effects if t.callee and (prog.local_callee_body(t.callee) is not None) and prog.local_callee_body(t.callee).key.endswith('BufferPosition::reset')]
+            v = resets[-1][1] if resets and len(resets[-1]) == 2 else p.store.get(start_loc)
+            okf = all((a[1] if len(a) == 2 else None) == Aff.const(0) for a in resets) and bool(resets) if resets else v == Aff.const(0)
+            R.add('SEEK-5', b, 'far-path-record-start=0', okf, where, 'record start after repositioning the source = %r (the refilled buffer starts at the target)' % (v,))
+    R.floor('SEEK-4', 4)
+    R.floor('SEEK-5', 4)
